@@ -121,22 +121,24 @@ def denseLoop (C : DS σ) : Nat → Nat → Nat → State σ → Nat × State σ
     else (cnt, s)
 
 /-- mirrors: src/query/intersection.rs::count_including_deleted -/
-def count (C : DS σ) (s : State σ) : Nat × State σ :=
-  if s.dense then denseLoop C FUEL (C.doc s.left) 0 s
+def count (fx : Fix) (C : DS σ) (s : State σ) : Nat × State σ :=
+  if s.dense then
+    let r := denseLoop C FUEL (C.doc s.left) 0 s
+    if fx.interCountEnd then (r.1, { r.2 with left := C.seek TERMINATED r.2.left }) else r
   else defaultCount (doc C) (advance C) s
 
 def scoreAll (C : DS σ) : List σ → Nat × List σ
   | [] => (0, [])
   | d :: ds => let r := C.score d; let q := scoreAll C ds; (r.1 + q.1, r.2 :: q.2)
 
-def ds (C : DS σ) : DS (State σ) where
+def ds (C : DS σ) (fx : Fix := {}) : DS (State σ) where
   doc := doc C
   advance := advance C
   seek := seek C
   seekDanger := seekDanger C
   fillBuffer := defaultFillBuffer (doc C) (advance C)
   fillBitset := defaultFillBitset (doc C) (advance C) (seek C)
-  count := count C
+  count := count fx C
   score := fun s =>
     let r := scoreAll C (toList s)
     (r.1, ofList s.dense s r.2)
